@@ -75,14 +75,29 @@ Proof.
   - eapply dep_step; eauto.
 Qed.
 
+(* ---------------------------------------------------------------- disposed sources *)
+(* node j is a signal / memo that has been disposed ([edone] of an effect means something else) *)
+Definition dead (s : state) (j : nat) : bool := negb (effb j) && sgone (getn s j).
+
+Lemma dead_view s s' j : edone (getn s' j) = edone (getn s j) -> dead s' j = dead s j.
+Proof. unfold dead, sgone. intros ->. reflexivity. Qed.
+Lemma dead_node s s' j : getn s' j = getn s j -> dead s' j = dead s j.
+Proof. unfold dead. intros ->. reflexivity. Qed.
+Lemma dead_eff s j : effb j = true -> dead s j = false.
+Proof. unfold dead. intros ->. reflexivity. Qed.
+Lemma dead_src s j : effb j = false -> dead s j = sgone (getn s j).
+Proof. unfold dead. intros ->. reflexivity. Qed.
+
 (* ---------------------------------------------------------------- structure of the graph *)
 Record WF (s : state) : Prop := {
   wf_len : nlen s = length p;
   wf_srclt : forall i j, In j (srcs (getn s i)) -> j < i;
   wf_nodup : forall j, NoDup (subs (getn s j));
   wf_sub_src : forall j k, In k (subs (getn s j)) -> In j (srcs (getn s k));   (* edges are symmetric *)
-  wf_src_sub : forall j k, In j (srcs (getn s k)) -> In k (subs (getn s j));
-  wf_dep : forall i j, In j (srcs (getn s i)) -> dep i j      (* dynamic edges lie inside the static cone *)
+  (* ... except that a disposed source has dropped its subscriber set *)
+  wf_src_sub : forall j k, In j (srcs (getn s k)) -> dead s j = false -> In k (subs (getn s j));
+  wf_dep : forall i j, In j (srcs (getn s i)) -> dep i j;     (* dynamic edges lie inside the static cone *)
+  wf_gone : forall j, dead s j = true -> subs (getn s j) = []
 }.
 
 Lemma wf_sub_gt s j k : WF s -> In k (subs (getn s j)) -> j < k.
@@ -98,15 +113,22 @@ Qed.
 Lemma WF_same_edges s s' :
   nlen s' = nlen s ->
   (forall i, srcs (getn s' i) = srcs (getn s i) /\ subs (getn s' i) = subs (getn s i)) ->
+  (forall i, dead s' i = dead s i) ->
   WF s -> WF s'.
 Proof.
-  intros Hl He W. split.
+  intros Hl He Hg W. split.
   - rewrite Hl; apply W.
   - intros i j. rewrite (proj1 (He i)). apply W.
   - intros j. rewrite (proj2 (He j)). apply W.
   - intros j k. rewrite (proj2 (He j)), (proj1 (He k)). apply W.
-  - intros j k. rewrite (proj2 (He j)), (proj1 (He k)). apply W.
+  - intros j k. rewrite (proj2 (He j)), (proj1 (He k)), Hg. apply W.
   - intros i j. rewrite (proj1 (He i)). apply W.
+  - intros j. rewrite (proj2 (He j)), Hg. apply W.
+Qed.
+
+Lemma wf_sub_live s j k : WF s -> In k (subs (getn s j)) -> dead s j = false.
+Proof.
+  intros W H. destruct (dead s j) eqn:E; auto. rewrite (wf_gone s W j E) in H. destruct H.
 Qed.
 
 Lemma wf_sub_dep s j k : WF s -> In k (subs (getn s j)) -> dep k j.
@@ -139,10 +161,12 @@ Qed.
 (* every tracked entry of the last run's log still shows the source's current value (up to the
    source's own comparator) *)
 Definition Lcur (s : state) (i : nat) : Prop :=
-  forall j v, In (j, v, true) (rlog (getn s i)) -> eqv j (cur s j) v.
-(* every memo tracked by the last run is Clean *)
+  forall j v, In (j, v, true) (rlog (getn s i)) -> dead s j = false -> eqv j (cur s j) v.
+(* every memo tracked by the last run is Clean; a source that has been disposed since owes
+   nothing: disposal is not a change, and a dead source is never looked at again *)
 Definition Lclean (s : state) (i : nat) : Prop :=
-  forall j v, In (j, v, true) (rlog (getn s i)) -> memob j = true -> st (getn s j) = Clean.
+  forall j v, In (j, v, true) (rlog (getn s i)) -> memob j = true -> dead s j = false ->
+  st (getn s j) = Clean.
 (* the source set is the tracked projection of the read log, in order, with multiplicity *)
 Definition L1 (s : state) (i : nat) : Prop :=
   srcs (getn s i) = tracked_of (rlog (getn s i)).
@@ -390,6 +414,7 @@ Proof.
   intros M W. apply (WF_same_edges s s'); auto.
   - apply (mr_len _ _ M).
   - intros i. destruct (mr_core _ _ M i) as (_&H1&_&H2&_). split; congruence.
+  - intros i. apply dead_view. destruct (mr_core _ _ M i) as (_&_&_&_&_&_&_&_&_&H&_). exact H.
 Qed.
 
 Lemma MarkRel_cur s s' j : MarkRel s s' -> cur s' j = cur s j.
